@@ -4,7 +4,7 @@ from __future__ import annotations
 import re
 
 from vf import absval as av
-from vf.common import Acc, CpuTimeout, Ctx, cpu_limit, norm_msg
+from vf.common import call_with_headroom, Acc, CpuTimeout, Ctx, cpu_limit, norm_msg
 from vf.gen import filters as gf
 from vf.ref import rfc4515
 
@@ -37,7 +37,7 @@ def gates(c, tier):
     for k in ("outcome:accepted", "outcome:FilterSyntaxError"):
         if tot and c.get(k, 0) < 0.1 * tot:
             out.append(f"{k} below 10% of cases ({c.get(k, 0)}/{tot})")
-    for k in ("part:random", "part:edits", "part:unbalanced", "part:extra-data", "part:escape-shapes", "part:many-components", "part:nest", "part:surrogates", "accepted-tree-walked", "accepted-reparsed", "offsets-checked"):
+    for k in ("part:random", "part:edits", "part:unbalanced", "part:extra-data", "part:escape-shapes", "part:many-components", "part:nest", "part:low-stack-headroom", "part:surrogates", "accepted-tree-walked", "accepted-reparsed", "offsets-checked"):
         if c.get(k, 0) == 0:
             out.append(f"never ran {k}")
     return out
@@ -233,6 +233,24 @@ def _run_shard(ctx: Ctx, acc: Acc):
             do("nest", ("(" + op) * d)
         do("nest", "(" * d + "a=b" + ")" * d)
         do("nest", ")" * d)
+    # the same totality when the application calls from deep inside its own recursion (little stack headroom)
+    for j in range(40):
+        r = ctx.rng("headroom", j)
+        d = r.choice([5, 20, 60, 100, 128, 200])
+        h = r.choice([40, 80, 150, 250, 400])
+        op = r.choice("&|!")
+        text = ("(" + op) * d + "(a=b)" + ")" * d
+        acc.case()
+        acc.count("part:low-stack-headroom")
+        acc.nontrivial("headroom", d, h, op)
+        try:
+            vio, obs = call_with_headroom(h, lambda: check_text(text))
+        except RecursionError:  # the harness itself ran out of frames around the call: nothing observed
+            acc.count("headroom:harness-overflow")
+            continue
+        acc.count("headroom:" + ("parsed" if not obs.get("outcome:FilterSyntaxError") else "FilterSyntaxError"))
+        for key, what in vio:
+            acc.violation(key + ":low-stack-headroom", what + f" (called with ~{h} frames of headroom)", {"text": text, "headroom": h})
     for j in range(max(1, n // 60)):
         r = ctx.rng("sur", j)
         base = gf.g_random_text(r) if r.random() < 0.5 else "(cn=abc)"
@@ -243,4 +261,9 @@ def _run_shard(ctx: Ctx, acc: Acc):
 def replay(w):
     if w.get("text") is None:
         return []
+    if w.get("headroom"):
+        try:
+            return [(k + ":low-stack-headroom", x) for k, x in call_with_headroom(w["headroom"], lambda: check_text(w["text"]))[0]]
+        except RecursionError:
+            return []
     return check_text(w["text"], w.get("surrogate", False))[0]
